@@ -76,7 +76,7 @@ def noFile : List String := ["= no-such-handle"]
 def volOpNeeds (args : List String) : Option Nat :=
   match args with
   | op :: _ :: p :: _ =>
-    if op ∈ ["free", "bmbits", "comment", "access", "chdir", "parent", "toroot", "list", "bootblock", "undel", "mkdir", "remove", "rename", "unmount"] then some (natOf p) else none
+    if op ∈ ["free", "bmbits", "comment", "access", "chdir", "parent", "toroot", "list", "bootblock", "undel", "getdel", "mkdir", "remove", "rename", "unmount"] then some (natOf p) else none
   | _ => none
 
 def stepOp1 (d : Drv) (args : List String) : List String × Drv :=
@@ -208,6 +208,12 @@ def stepOp1 (d : Drv) (args : List String) : List String × Drv :=
     | some f => ([s!"= {fileStat f} nblk={f.nDataBlock} cur={toInt32 f.curDataPtr} pidb={f.posInDataBlk} pieb={f.posInExtBlk}"], d)
   | ["undel", _, p, par, sect] =>
     runTop d (Top.prog (undelEntry (n p) (n par) (n sect))) fun rc _ => [s!"= rc={rc}"]
+  | ["getdel", _, p] =>
+    runTop d (Top.prog (getDelEnt (n p))) fun r _ =>
+      match r with
+      | none => ["= n=0"]
+      | some l => s!"= n={l.length}" :: l.map fun (st, sect, par, nm) =>
+          s!"D {toInt32 st} {toInt32 sect} {toInt32 par} {match nm with | some b => hexOfBytes b | none => "-"}"
   | ["bootblock", _, p, seed] =>
     runTop d (Top.prog (installBootBlock (n p) (genData (n seed) 1024))) fun rc _ => [s!"= rc={rc}"]
   | ["imghash", _] =>
